@@ -11,7 +11,10 @@ results (every subset of the results made live through exit-state / returned val
              harness-side DataFlowAnalysis (the Seeder) loaded into the same solver, either from its initialize
              or from a worklist visit (so the moment of the boundary marking is part of the schedule);
   * "func" : the body of a PUBLIC func.func whose func.return returns a chosen tuple of values; the solver is
-             run on the func.func itself (DeadCodeAnalysis only makes the top-level op's entry block executable).
+             run on the func.func itself (DeadCodeAnalysis only makes the top-level op's entry block executable);
+             "func1" / "func2" give the function 1 / 2 arguments, which are values like any other (operands of any
+             op, the first op of the block included; returnable; their liveness is compared with the reference).
+             Multi-block bodies are outside the property (branch-free IR; the analyses raise on successors).
 Analyses are loaded in every relevant order of {DeadCodeAnalysis, LivenessAnalysis, Seeder} (MODES): with
 DeadCodeAnalysis first the liveness initialisation sweep already sees an executable block; with LivenessAnalysis
 first every op of the block is enqueued when the block becomes executable.
@@ -64,8 +67,15 @@ MODE_SETS = {"all": MODES_SEED, "core": (("D", "Si", "L"), ("D", "L", "Sw"), ("L
 
 
 # ---------------------------------------------------------------- programs
-def programs(n_ops: int, full: bool, variant: int = 0, multi: bool = False):
+def nargs_of(host: str) -> int:
+    """hosts: "mod", "func" (no arguments), "func1" / "func2" (public function with 1 / 2 arguments)"""
+    return int(host[4:]) if host.startswith("func") and len(host) > 4 else 0
+
+
+def programs(n_ops: int, full: bool, variant: int = 0, multi: bool = False, nargs: int = 0):
     """every op list of exactly n_ops ops.  op = (kind, operand value indices, n_results).
+    nargs      : values 0..nargs-1 are the arguments of the entry block (so ANY op, the first one included, may
+                 take operands); op results are numbered after them.
     multi=True: removable (pure / read-only) ops with operands may also have 2 or 3 results; ONLY the programs that
                 contain at least one such multi-result op are produced (the others belong to the multi=False plans).
     full=True : all four kinds at every position, sources (no operands, one result) pure or unknown,
@@ -93,7 +103,7 @@ def programs(n_ops: int, full: bool, variant: int = 0, multi: bool = False):
             for o in opnds:
                 for r in ((0, 1, 2, 3) if multi and KIND[k][1] else (0, 1)):
                     yield from rec(prefix + ((k, o, r),), v + r, has_multi or r > 1)
-    yield from rec((), 0, False)
+    yield from rec((), nargs, False)
 
 
 def live_sets(v: int, max_size: int):
@@ -106,16 +116,19 @@ def build(host: str, ops, live):
     from xdsl.dialects.builtin import ModuleOp, i32
     from xdsl.ir import Block, Region
 
-    vals: list[Any] = []
+    nargs = nargs_of(host)
+    block = Block(arg_types=[i32] * nargs)
+    vals: list[Any] = list(block.args)
     body = []
     for kind, opnds, nres in ops:
         cls = getattr(test, KIND[kind][0])
         op = cls.create(operands=[vals[i] for i in opnds], result_types=[i32] * nres)
         vals.extend(op.results)
         body.append(op)
-    if host == "func":
+    if host.startswith("func"):
         body.append(func.ReturnOp(*[vals[i] for i in live]))
-        top = func.FuncOp("f", ([], [i32] * len(live)), Region(Block(body)), visibility="public")
+        block.add_ops(body)
+        top = func.FuncOp("f", ([i32] * nargs, [i32] * len(live)), Region(block), visibility="public")
     else:
         top = ModuleOp(body)
     return top, body, vals
@@ -125,11 +138,11 @@ def build(host: str, ops, live):
 def op_table(host: str, ops, live):
     """ops incl. the return of the func host, each as (kind, operands, result value indices)"""
     out = []
-    v = 0
+    v = nargs_of(host)                 # entry block arguments come first; they have no defining op
     for kind, opnds, nres in ops:
         out.append((kind, tuple(opnds), tuple(range(v, v + nres))))
         v += nres
-    if host == "func":
+    if host.startswith("func"):
         out.append(("return", tuple(live), ()))
     return out, v
 
@@ -458,14 +471,14 @@ def _shard(arg) -> Stats:
     host, n_ops, full, variant, max_live, bound, cap, mkey, skip_sources_only, multi = plan
     st = Stats()
     idx = 0
-    for ops, v in programs(n_ops, full, variant, multi):
+    for ops, v in programs(n_ops, full, variant, multi, nargs_of(host)):
         if skip_sources_only and all(not o[1] for o in ops):
             continue                       # identical in both kind variants: counted with variant 0
         for live in live_sets(v, max_live):
             idx += 1
             if idx % nshards != shard:
                 continue
-            modes = MODES_NOSEED if (host == "func" or not live) else MODE_SETS[mkey]
+            modes = MODES_NOSEED if (host != "mod" or not live) else MODE_SETS[mkey]
             st.states += 1
             most = explore_case(st, host, ops, live, modes, bound, cap)
             if most > 1 and chain_needed(host, ops, live):
@@ -492,13 +505,18 @@ def plans(quick: bool):
             ("mod", 2, True, 0, 3, None, Q, "all", False), ("func", 2, True, 0, 3, None, Q, "all", False),
             ("mod", 3, False, 0, 2, 1, Q, "all", False), ("func", 3, False, 0, 2, 2, Q, "all", False),
         ]
+        args = [       # public function with 1 / 2 arguments: any op, the FIRST one included, may consume them
+            ("func1", 1, True, 0, 2, None, Q, "all", False), ("func1", 2, True, 0, 2, None, Q, "all", False),
+            ("func2", 1, True, 0, 2, None, Q, "all", False), ("func2", 2, True, 0, 1, None, Q, "all", False),
+            ("func1", 3, False, 0, 1, 1, Q, "all", False),
+        ]
     else:
         ps = [
             ("mod", 1, True, 0, 1, None, T, "all", False), ("mod", 2, True, 0, 2, None, T, "all", False),
             ("mod", 3, True, 0, 3, None, T, "all", False),
             ("func", 1, True, 0, 1, None, T, "all", False), ("func", 2, True, 0, 2, None, T, "all", False),
             ("func", 3, True, 0, 2, None, T, "all", False),
-            ("mod", 4, False, 0, 1, None, T, "all", False), ("mod", 4, False, 1, 4, 2, T, "all", True),
+            ("mod", 4, False, 0, 1, None, T, "all", False), ("mod", 4, False, 1, 4, 2, T, "core", True),
             ("func", 4, False, 0, 2, None, T, "all", False),
             ("func", 5, False, 1, 1, 1, T, "all", False),
         ]
@@ -508,23 +526,33 @@ def plans(quick: bool):
             ("func", 3, False, 0, 3, None, T, "all", False), ("func", 3, False, 1, 3, None, T, "all", False),
             ("mod", 4, False, 0, 0, 2, T, "all", False),
         ]
-    return [p + (False,) for p in ps] + [p + (True,) for p in multi]
+        args = [
+            ("func1", 1, True, 0, 2, None, T, "all", False), ("func1", 2, True, 0, 2, None, T, "all", False),
+            ("func2", 1, True, 0, 3, None, T, "all", False), ("func2", 2, True, 0, 2, None, T, "all", False),
+            ("func1", 3, False, 0, 2, None, T, "all", False), ("func1", 3, False, 1, 2, None, T, "all", False),
+            ("func2", 3, False, 0, 1, 1, T, "all", False),
+        ]
+    return [p + (False,) for p in ps + args] + [p + (True,) for p in multi]
+
+
+def _nshards(p) -> int:
+    return 96 if p[1] + nargs_of(p[0]) >= 3 else 4
 
 
 def run(ctx):
     ps = plans(ctx.quick)
-    nshards = 96
-    tasks = [(p, i, nshards if p[1] >= 3 else 4, ctx.seed) for p in ps for i in range(nshards if p[1] >= 3 else 4)]
+    tasks = [(p, i, _nshards(p), ctx.seed) for p in ps for i in range(_nshards(p))]
     # big plans first so the pool stays busy
-    tasks.sort(key=lambda t: (-t[0][1], not t[0][9]))
+    tasks.sort(key=lambda t: (-t[0][1] - nargs_of(t[0][0]), not t[0][9]))
     done = {(t[0], t[1]): st for t, st in pmap(_shard, tasks)}
     for p in ps:                                   # merge in plan order (smallest programs first), shard order:
-        for i in range(nshards if p[1] >= 3 else 4):   # the witness kept per signature is then deterministic and small
+        for i in range(_nshards(p)):                   # the witness kept per signature is then deterministic and small
             ctx.merge(done[(p, i)])
     ctx.bounds = {"plans": [{"host": p[0], "ops": p[1], "alphabet": "full(4 kinds, ordered operand pairs)" if p[2] else f"reduced(variant {p[3]})",
                              "results_per_op": "0-1, removable ops also 2-3 (programs with at least one such op)" if p[9] else "0-1",
                              "max_live_set": p[4], "deviation_bound": "unbounded" if p[5] is None else p[5],
                              "max_executions_per_case_mode": p[6],
+                             "entry_block_arguments": nargs_of(p[0]),
                              "modes_with_exit_state_values": [">".join(m) for m in MODE_SETS[p[7]]] if p[0] == "mod" else []} for p in ps],
                   "modes": [">".join(m) for m in MODES_NOSEED + MODES_SEED], "step_cap": STEP_CAP}
     ctx.rule = ("every one-block program of exactly N ops over {pure, read, write, unknown} x operand wirings (0-2 operands from all earlier "
@@ -536,7 +564,8 @@ def run(ctx):
     ctx.assumptions = ["solver._worklist (append/popleft/truthiness) is the solver's only scheduling point",
                        "ground-truth removability table KIND in props/c25.py (pure, read-only removable; write, unknown effects, func.return not)",
                        "LivenessAnalysis.set_to_exit_state called by a co-loaded analysis is the 'returned from a public function' boundary of the module host",
-                       "a value without a Liveness lattice is dead"]
+                       "a value without a Liveness lattice is dead",
+                       "function arguments are live exactly when used like any other value (no conservative widening of public-function arguments)"]
 
 
 class _Lenient(Chooser):
